@@ -3,6 +3,7 @@
 package transaction
 
 import (
+	"context"
 	"time"
 
 	"github.com/KevoDB/kevo/pkg/zzverif/vsym"
@@ -70,5 +71,47 @@ func VerifC17_RegistryCleanup() {
 	} else {
 		vsym.Assert(vsym.Held(&mgr.txLock) == 1, "a live read-only transaction lost its share of the database lock")
 	}
+	vsym.Reach("done")
+}
+
+// VerifC17_GracefulShutdown: a registry holding one read-write transaction or two read-only ones (some with buffered
+// writes) is shut down. Every transaction is rolled back - the database lock is free afterwards, a buffered write
+// never reaches storage, the transactions are closed - and the handles are gone, whatever the moment at which the
+// per-transaction rollback deadline fires.
+func VerifC17_GracefulShutdown() {
+	st := &recStorage{preK: []byte{1}, preV: []byte{1}}
+	mgr := NewManager(st, nil)
+	st.lock = &mgr.txLock
+	reg := NewRegistryWithTTL(5*time.Minute, 30*time.Second, 75, 90).(*RegistryImpl)
+	var txs []Transaction
+	if vsym.IntRange("shape", 0, 1) == 0 {
+		t, err := mgr.BeginTransaction(false)
+		vsym.Assert(err == nil, "begin failed")
+		if vsym.IntRange("wrote", 0, 1) == 1 {
+			vsym.Assert(t.Put(vsym.Bytes("k", 1), vsym.Bytes("v", 1)) == nil, "tx.Put failed")
+		}
+		txs = append(txs, t)
+	} else {
+		for i := 0; i < 2; i++ {
+			t, err := mgr.BeginTransaction(true)
+			vsym.Assert(err == nil, "begin failed")
+			txs = append(txs, t)
+		}
+	}
+	ids := []string{"c1-tx-1", "c2-tx-2"}
+	for i, t := range txs {
+		reg.transactions[ids[i]] = t
+		reg.connectionTxs[ids[i][:2]] = map[string]struct{}{ids[i]: {}}
+	}
+	serr := reg.GracefulShutdown(context.Background())
+	vsym.Quiesce()
+	_ = serr
+	for i, t := range txs {
+		_, ok := reg.Get(ids[i])
+		vsym.Assert(!ok, "a transaction is still registered after the registry was shut down")
+		vsym.Assert(t.Commit() == ErrTransactionClosed, "a transaction is still open (can commit) after the registry was shut down")
+	}
+	vsym.Assert(vsym.Held(&mgr.txLock) == 0, "the database lock is still held after the registry was shut down")
+	vsym.Assert(len(st.batches) == 0, "a buffered write of a transaction rolled back by the shutdown reached storage")
 	vsym.Reach("done")
 }
